@@ -81,7 +81,10 @@ fn box_faces(lo: DVec3, hi: DVec3, keys: [FaceKey; 6]) -> Vec<PFace> {
 }
 
 /// Clip the polytope by the half space n.x <= d. Returns true if anything was cut.
-fn clip(faces: &mut Vec<PFace>, key: FaceKey, n: DVec3, d: f64, eps: f64) -> bool {
+fn clip(faces: &mut Vec<PFace>, key: FaceKey, n: DVec3, d: f64, eps_rel: f64) -> bool {
+    // tolerance relative to the magnitudes involved (coordinates are relative to the generator)
+    let maxr = faces.iter().flat_map(|f| f.poly.iter()).map(|v| v.length()).fold(0., f64::max);
+    let eps = eps_rel * (maxr.min(4. * d.abs()) + d.abs());
     // Is any vertex strictly outside?
     let mut any_out = false;
     'outer: for f in faces.iter() {
@@ -177,7 +180,8 @@ pub fn oracle_cell_with(st: &State, i: usize, images: i32) -> OCell {
     let g = st.gen_loc(i);
     let dim = st.dim;
     let lscale = w.x.max(w.y).max(w.z);
-    let eps = 1e-12 * lscale;
+    let eps = 1e-14;
+    let _ = lscale;
 
     // initial box, relative to the generator
     let mut lo = a - g;
@@ -216,7 +220,7 @@ pub fn oracle_cell_with(st: &State, i: usize, images: i32) -> OCell {
     for (q2, key, q) in planes {
         // pruning (exact): a bisector at distance |q|/2 beyond every vertex cannot cut
         let maxr2 = faces.iter().flat_map(|f| f.poly.iter()).map(|v| v.length_squared()).fold(0., f64::max);
-        if 0.25 * q2 > maxr2 * (1. + 1e-9) + eps {
+        if 0.25 * q2 > maxr2 * (1. + 1e-9) {
             break;
         }
         let len = q2.sqrt();
@@ -259,7 +263,7 @@ pub fn oracle_cell_with(st: &State, i: usize, images: i32) -> OCell {
             m[9] += second(z, z);
         }
         for v in &f.poly {
-            if !verts.iter().any(|u| u.distance(*v) <= 8. * eps) {
+            if !verts.iter().any(|u| u.distance(*v) <= 8. * eps * (v.length() + 1e-300)) {
                 verts.push(*v);
             }
         }
